@@ -177,6 +177,28 @@ def run_discr(seed, budget, want=("dispatch", "roundtrip", "tagged", "purity")):
                         backa = out(lambda: deserialize(U, sa[1], aliaser=al))
                         if backa != ("ok", v): fail("discriminated-value-does-not-round-trip-under-an-aliaser", u, value=v, serialized=sa[1], back=backa)
                     else: fail("serialization-of-a-discriminated-value-raises", u, value=v, got=sa)
+    if "dispatch" in want:
+        # one partial mapping (a plain dict of the user) given to two unions with different members: each union completes *its own copy* with the implicit
+        # keys of its members; the dict stays as the user wrote it, whichever union is used first
+        n_sh = 6; sh_src = list(HEADER)
+        for i in range(n_sh):
+            sh_src += ["@dataclass", f"class SD{i}:", "    d: int = 0", "", "@dataclass", f"class SL{i}:", "    l: int = 0", "", "@dataclass", f"class SC{i}:", "    c: int = 0", "",
+                       f"MAP{i} = {{'dog': SD{i}}}", f"SU1_{i} = Annotated[Union[SD{i}, SL{i}], discriminator('type', MAP{i})]", f"SU2_{i} = Annotated[Union[SD{i}, SC{i}], discriminator('type', MAP{i})]", ""]
+        sns = dict(vars(build_module(sh_src, f"discrshared{seed}")))
+        for i in range(n_sh):
+            first, second = (("SU1", "SL", "SC"), ("SU2", "SC", "SL")) if rnd.random() < 0.5 else (("SU2", "SC", "SL"), ("SU1", "SL", "SC"))
+            evaluations += 1; distinct.add(("shared-mapping", i, first[0])); hist["shared-mapping"] += 1
+            res = {}
+            for (u, own, other) in (first, second):
+                U = sns[f"{u}_{i}"]
+                res[u + ":own"] = out(lambda: deserialize(U, {"type": f"{own}{i}"}))
+                res[u + ":other"] = out(lambda: deserialize(U, {"type": f"{other}{i}"}))
+                res[u + ":dog"] = out(lambda: deserialize(U, {"type": "dog", "d": 2}))
+                res[u + ":ser"] = out(lambda: serialize(U, sns[f"{other}{i}"](), check_type=True))
+            bad = [k for k, v in res.items() if (k.endswith(":own") or k.endswith(":dog")) and v[0] != "ok"] + [k for k, v in res.items() if k.endswith(":other") and v[0] != "invalid"] \
+                + [k for k, v in res.items() if k.endswith(":ser") and v[0] == "ok"]
+            if sorted(sns[f"MAP{i}"]) != ["dog"]: bad.append("the user's mapping was modified: " + repr(sorted(sns[f"MAP{i}"])))
+            if bad: fail("shared-partial-mapping-makes-one-union-depend-on-the-other", None, order=[first[0], second[0]], wrong=bad, results={k: repr(v)[:80] for k, v in res.items()})
     if "tagged" in want:
         TU = ns["TU"]
         for d, ok in (({"a": 1}, True), ({"b": "s"}, True), ({"a": 1, "b": "s"}, False), ({}, False), ({"c": 1}, False)):
